@@ -77,3 +77,20 @@ Theorem c07_refuted_when_the_reserved_counter_wraps :
       in_crit (t_pc (c_pool (exec e (init progs) sched) u)) = true.
 Proof. exact f14_mutual_exclusion_fails_when_the_reserved_counter_wraps. Qed.
 Print Assumptions c07_refuted_when_the_reserved_counter_wraps.
+
+(** granularity of the interleaving model: a step of thread [u] records at most one label -- one atomic
+    access or one call of the wrapped iterator's next() -- and that label carries [u]; so a run of [n] steps has
+    at most [n] labels, each of a scheduled thread.  The theorems above quantify over every schedule of steps
+    of this size: no two accesses of one thread are ever executed together as one indivisible step. *)
+From OCI.proofs Require Import Progress History.
+Theorem c07_one_access_per_step : forall e c u,
+  c_labels (step e c u) = c_labels c \/
+  exists l, c_labels (step e c u) = l :: c_labels c /\ lbl_tid l = u.
+Proof. exact step_one_label. Qed.
+Print Assumptions c07_one_access_per_step.
+
+Theorem c07_labels_belong_to_scheduled_threads : forall e progs sched,
+  Forall (fun l => In (lbl_tid l) sched) (c_labels (exec e (init progs) sched)) /\
+  (length (c_labels (exec e (init progs) sched)) <= length sched)%nat.
+Proof. exact run_labels_belong_to_scheduled_threads. Qed.
+Print Assumptions c07_labels_belong_to_scheduled_threads.
